@@ -97,7 +97,7 @@ var contentLies = []string{"tx-tamper", "hdr-tamper", "fork", "basic-invalid"}
 // canonical body, LastCommit replaced (LastCommitHash recomputed): what the node would store as the seen commit of
 // the predecessor
 var commitLies = []string{
-	"commit-forged", "commit-short", "commit-otherid", "commit-psh", "commit-wrongset", "commit-wrongheight",
+	"commit-forged", "commit-short", "commit-short", "commit-short", "commit-short", "commit-otherid", "commit-psh", "commit-wrongset", "commit-wrongheight",
 	"commit-padded-sig", "commit-padded-sig", "commit-padded-nil", "commit-padded-nil", "commit-padded-addr", "commit-padded-addr",
 	"commit-variant",
 	// every signature genuine, one slot misplaced (see forger.relabelled)
@@ -139,6 +139,15 @@ func genScenario(t *rapid.T, reactor string, thorough bool) *scenario {
 			}
 		}
 		sc.Powers = append(sc.Powers, p)
+	}
+	// boundary bias: in half of the cases the genesis total power is made = 2 (mod 3), where floor(2T/3) and
+	// 2*floor(T/3) differ (the validator updates of the chain move it around afterwards)
+	if rapid.Bool().Draw(t, "total2mod3") {
+		var tot int64
+		for _, p := range sc.Powers {
+			tot += p
+		}
+		sc.Powers[len(sc.Powers)-1] += (2 - tot%3 + 3) % 3
 	}
 	// mostly 6-10 blocks; short chains (hand-over after 0, 1 or 2 applied blocks) in about a fifth of the cases
 	n := rapid.SampledFrom([]int{1, 2, 2, 3, 6, 6, 7, 7, 8, 8, 9, 9, 10, 10, 6, 8}).Draw(t, "nblocks")
